@@ -45,30 +45,59 @@ func Distinct(v reflect.Value) interface{} {
 		for i := 0; i < items.Len(); i++ {
 			item := jtypes.Resolve(items.Index(i))
 
-			if jtypes.IsMap(item) {
-				// We can't hash a map, so convert it to a
-				// string that is hashable
-				mapItem := fmt.Sprint(item.Interface())
-				if _, ok := visited[mapItem]; ok {
-					continue
-				}
-				visited[mapItem] = struct{}{}
-				distinctValues = reflect.Append(distinctValues, item)
-
+			key, ok := distinctKey(item)
+			if !ok {
+				// This item cannot be compared by value (e.g.
+				// it's a function). Keep it as it is.
+				distinctValues = reflect.Append(distinctValues, items.Index(i))
 				continue
 			}
 
-			if _, ok := visited[item.Interface()]; ok {
+			if _, ok := visited[key]; ok {
 				continue
 			}
 
-			visited[item.Interface()] = struct{}{}
+			visited[key] = struct{}{}
 			distinctValues = reflect.Append(distinctValues, item)
 		}
 		return distinctValues.Interface()
 	}
 
 	return nil
+}
+
+// distinctArrayKey and distinctObjectKey are the map keys used by
+// Distinct for arrays and objects respectively. Neither type is
+// hashable so Distinct uses their JSON encoding (which sorts
+// object keys). The distinct types prevent clashes between
+// containers and strings.
+type distinctArrayKey string
+type distinctObjectKey string
+
+// distinctKey returns a hashable value that is equal for
+// two JSONata values if and only if the values are equal.
+func distinctKey(v reflect.Value) (interface{}, bool) {
+
+	if !v.IsValid() || !v.CanInterface() {
+		return nil, false
+	}
+
+	if n, ok := jtypes.AsNumber(v); ok {
+		return n, true
+	}
+
+	switch {
+	case jtypes.IsArray(v):
+		s, err := String(v.Interface())
+		return distinctArrayKey(s), err == nil
+	case jtypes.IsMap(v):
+		s, err := String(v.Interface())
+		return distinctObjectKey(s), err == nil
+	case v.Type().Comparable():
+		return v.Interface(), true
+	default:
+		return nil, false
+	}
 }
 
 // Append (golint)
